@@ -107,7 +107,7 @@ var windowSites = map[string]bool{
 	"gocall.invoke": true, "apply.rewrite": true, "apply.rewritten": true,
 	"registry.copy": true, "registry.write": true, "transform.cloned": true,
 	"transform.item": true, "err.name": true, "newenv.clock": true, "newenv.clocked": true,
-	SiteLockWait: true, SiteExt: true,
+	SiteLockWait: true, SiteExt: true, "lock.released": true,
 }
 
 type windowStrategy struct {
